@@ -17,7 +17,7 @@ CROSS = {
     "C08-11": ["C18", "C13"], "C02-11": ["C20"],
     "C13-13": ["C10"], "C08-12": ["C07", "C08:thorough"],
     "C05-15": ["C07"], "C13-15": ["C10"], "C02-15": ["C20"],
-    "C10-17": ["C09"], "C02-17": ["C10"],
+    "C10-17": ["C09"], "C02-17": ["C10"], "C08-17": ["C02"],
 }
 
 
